@@ -1,0 +1,88 @@
+//! Verification hooks. Compiled only with `--cfg qe_verif`; the default build
+//! never sees this module. Everything here is a no-op until a verification
+//! harness installs a callback or turns a switch on.
+//!
+//! * `sync_point(name)` — called immediately before a linearization point
+//!   (an atomic RMW, a filesystem operation). A harness-installed scheduler may
+//!   park the calling thread there to force a chosen interleaving.
+//! * `switch(name)` — behaviour-neutral planner switches that let small test
+//!   tables reach code paths the planner only picks for large inputs.
+//! * `path(tag)` / `event(name, detail)` — coverage tags and trace events.
+
+use std::collections::BTreeSet;
+use std::sync::atomic::{AtomicBool, Ordering};
+use std::sync::{Arc, Mutex};
+
+pub type SyncFn = Arc<dyn Fn(&str) + Send + Sync>;
+
+static SYNC_ON: AtomicBool = AtomicBool::new(false);
+static SYNC: Mutex<Option<SyncFn>> = Mutex::new(None);
+static SWITCHES: Mutex<BTreeSet<String>> = Mutex::new(BTreeSet::new());
+static ANY_SWITCH: AtomicBool = AtomicBool::new(false);
+static PATHS: Mutex<BTreeSet<String>> = Mutex::new(BTreeSet::new());
+static REC_ON: AtomicBool = AtomicBool::new(false);
+static EVENTS: Mutex<Vec<(String, String)>> = Mutex::new(Vec::new());
+
+/// Install (or remove) the scheduler callback invoked at every sync point.
+pub fn install_sync(f: Option<SyncFn>) {
+    let on = f.is_some();
+    *SYNC.lock().unwrap() = f;
+    SYNC_ON.store(on, Ordering::SeqCst);
+}
+
+#[inline]
+pub fn sync_point(name: &str) {
+    if !SYNC_ON.load(Ordering::Relaxed) {
+        return;
+    }
+    let f = SYNC.lock().unwrap().clone();
+    if let Some(f) = f {
+        f(name);
+    }
+}
+
+pub fn set_switch(name: &str, on: bool) {
+    let mut s = SWITCHES.lock().unwrap();
+    if on {
+        s.insert(name.to_string());
+    } else {
+        s.remove(name);
+    }
+    ANY_SWITCH.store(!s.is_empty(), Ordering::SeqCst);
+}
+
+#[inline]
+pub fn switch(name: &str) -> bool {
+    if !ANY_SWITCH.load(Ordering::Relaxed) {
+        return false;
+    }
+    SWITCHES.lock().unwrap().contains(name)
+}
+
+pub fn set_recording(on: bool) {
+    REC_ON.store(on, Ordering::SeqCst);
+}
+
+#[inline]
+pub fn path(tag: &str) {
+    if !REC_ON.load(Ordering::Relaxed) {
+        return;
+    }
+    PATHS.lock().unwrap().insert(tag.to_string());
+}
+
+pub fn take_paths() -> Vec<String> {
+    std::mem::take(&mut *PATHS.lock().unwrap()).into_iter().collect()
+}
+
+#[inline]
+pub fn event(name: &str, detail: impl FnOnce() -> String) {
+    if !REC_ON.load(Ordering::Relaxed) {
+        return;
+    }
+    EVENTS.lock().unwrap().push((name.to_string(), detail()));
+}
+
+pub fn take_events() -> Vec<(String, String)> {
+    std::mem::take(&mut *EVENTS.lock().unwrap())
+}
